@@ -2285,6 +2285,15 @@ fn generate(seed: u64, thorough: bool) -> Vec<String> {
         let plen = *g.r.pick(&PLENS[1..]);
         push!(g, "net", "{} {} {} {} {} {} {} {} {}", server, client, kind, route, cls, code, plen, n, hex(&p));
     }
+    // large vectors (> 64 KiB, > 1 MiB) from the bulk and serde helpers to every route
+    for route in ["slice", "ref", "typed"] {
+        for kind in ["bulk", "serde"] {
+            let (cls, code, w) = *g.r.pick(&[(0u8, 3u8, 8usize), (2, 0, 1), (1, 4, 16)]);
+            let n = if thorough && kind == "bulk" { (1 << 20) / w + 3 } else { (1 << 16) / w + 1 + g.r.below(100) as usize };
+            let p = gen_payload(&mut g.r, cls, code, w, n, 1);
+            push!(g, "net", "{} {} {} {} {} {} {} {} {}", g.r.below(2), *g.r.pick(&["sync", "async"]), kind, route, cls, code, *g.r.pick(&PLENS[1..]), n, hex(&p));
+        }
+    }
     // the WebSocket client's serde helper against the three routes on the WebSocket server
     for route in ["slice", "ref", "typed"] {
         for round in 0..(if thorough { 20 } else { 4 }) {
@@ -2356,9 +2365,25 @@ fn generate(seed: u64, thorough: bool) -> Vec<String> {
             };
             let fmt = if g.r.chance(1, 9) { *g.r.pick(&[0u16, 2, 3, 65535]) } else { 1 };
             let hk = *g.r.pick(&["same", "same", "same", "bytes", "err", "err", "panics", "panicstr", "panicint"]);
-            line.push_str(&format!(" {} {} {} {}", hk, fmt, g.r.below(16), hex(&body)));
+            let mis = if g.r.chance(1, 2) { 0 } else { g.r.below(16) };
+            line.push_str(&format!(" {} {} {} {}", hk, fmt, mis, hex(&body)));
         }
         g.push("hseq", line);
+    }
+    // bodies just over 64 KiB and over 1 MiB on every route kind, bare and behind a middleware (view path)
+    for (i, (cls, code, w)) in [(2u8, 0u8, 1usize), (0, 3, 8), (1, 4, 16), (0, 1, 2)].into_iter().enumerate() {
+        for kind in ["slice", "ref"] {
+            for wrap in [0, 1] {
+                let n = if i == 0 && thorough { (1 << 20) + 5 } else { (1 << 16) / w + 1 + g.r.below(50) as usize };
+                let p = gen_payload(&mut g.r, cls, code, w, n, 1);
+                let q = path_of(g.r.below(20) as usize).into_bytes();
+                let regular = real_typed_body(cls, code, &p);
+                let mut line = format!("{} {} {} {} {} 2 same 1 {} {}", kind, wrap, cls, code, hex(&q), g.r.below(16), hex(&regular));
+                let second = if kind == "ref" { dispatch!(cls, code, real_aligned(q.len(), &p)) } else { regular.clone() };
+                line.push_str(&format!(" bytes 1 0 {}", hex(&second)));
+                g.push("hseq", line);
+            }
+        }
     }
     // ---- 6d. the aligned builder behind arbitrary query bytes: not UTF-8, long ------------------------------
     let mut qlens: Vec<usize> = vec![0, 1, 63, 64, 65, 66, 71, 100, 127, 128, 129, 255, 256, 257, 1000, 4097];
